@@ -62,10 +62,14 @@ def expected(col, nrows=3):
     return [['r%dc%d' % (r, col), r] for r in range(1, nrows + 1)]
 
 
-def variants(names, col, direct_ok=True):
+def variants(names, col, direct_ok=True, expression=False):
     """query spellings that must all denote column `col`"""
     nm = names[col]
     out = [('dq', 'a[%s]' % qast.lit(nm, '"')), ('sq', 'a[%s]' % qast.lit(nm, "'"))]
+    if expression:
+        # in expression position (not as UPDATE target / EXCEPT column / JOIN key, which are looked up textually) the subscript is an ordinary
+        # expression of the host language: white space or parentheses around the literal change nothing
+        out.append(('dq-spaced', 'a[ %s ]' % qast.lit(nm, '"')) if len(nm) % 2 else ('sq-paren', 'a[(%s)]' % qast.lit(nm, "'")))
     if qast.attr_safe(nm):
         out.append(('attr', 'a.%s' % nm))
     return out
@@ -116,7 +120,7 @@ def _leg_lists(ns, res, spec, rng, node, js_batch):
         A = unique_table(len(names))
         res.count('headers')
         for col in range(len(names)):
-            for style, var in variants(names, col):
+            for style, var in variants(names, col, expression=True):
                 mod = rng.choice(['', '', ' WITH (header)', ' with (noheader)'])
                 qtext = 'select %s, NR%s' % (var, mod)
                 r = boundary.run_query_table(ns, qtext, [list(x) for x in A], None, list(names))
@@ -195,7 +199,7 @@ def leg_pandas_sqlite(ns, res, spec):
             # pandas
             df = pd.DataFrame(A, columns=names)
             for col in range(len(names)):
-                for style, var in variants(names, col):
+                for style, var in variants(names, col, expression=True):
                     qtext = 'select %s, NR%s' % (var, rng.choice(['', ' WITH (header)']))
                     err = None
                     rows = None
@@ -242,7 +246,7 @@ def leg_pandas_sqlite(ns, res, spec):
                 conn.close()
                 continue
             for col in range(len(names)):
-                for style, var in variants(names, col):
+                for style, var in variants(names, col, expression=True):
                     qtext = 'select %s, NR%s' % (var, rng.choice(['', ' WITH (noheader)']))
                     outp = os.path.join(d, 'out.csv')
                     err = None
@@ -287,7 +291,7 @@ def leg_csv(ns, res, spec):
             write_csv(inp, rows, policy)
             outp = os.path.join(d, 'out_%d.csv' % n)
             for col in range(len(names)):
-                for style, var in variants(names, col):
+                for style, var in variants(names, col, expression=True):
                     flag, mod = rng.choice([(True, ''), (True, ''), (False, ' WITH (header)'), (True, ' with (header)')])
                     qtext = 'select %s, NR%s' % (var, mod)
                     err = None
